@@ -19,6 +19,12 @@ CHECKS = {
  "C05": dict(engine="layout", design="5 C05", technique="TLA+ TABEAM/EEAM writer models, DeclaredCountIsBlockCount and BlockCensus invariants by TLC; replay through writeTABEAM*, tabulation classes, .ini and CLI with exact %f oracle",
    text="Declared function count = number of blocks = n(n+5)/2 or 3n(n+1)/2; one pair block per unordered pair (zero-filled, either orientation), embe/dens census, block headers n/0/(n-1)step and n values at i*step.",
    note="Trusted: keyword-based TABEAM reader model."),
+ "C08": dict(engine="multirange", design="5 C08", technique="TLA+ transcription of the sorted setter and the _range_search loop (MultiRange.tla) checked by TLC against the declarative Allowed set for every listing; every listing replayed on Multi_Range_Potential_Form* (API and potable text) with range-identifying sub-potentials, four query orders per object",
+   text="TLC proves, for every listing of <=3 (quick) / <=5 (thorough) ranges over {>,>=} x 4 starts and 9 query points, that the transcribed algorithm selects an allowed range, is listing-order independent and returns the default only below the first range; the replay checks the real class against the TLC-emitted allowed sets for value, deriv and deriv2 (same range), across evaluation histories on one object, across all listings of one multiset, and API vs potable text incl. the implicit '>0'.",
+   note="Tie above a start shared by '>' and '>=': either range accepted (the suite pins the exclusive one); identical (marker,start) duplicates excluded from order independence (DESIGN C08)."),
+ "C11": dict(engine="grid", design="5 C11", technique="TLA+ transcription of _TabulationCutoff._init_cutoff (Grid.tla) checked by TLC against the declarative decision table for all 216 presence/sign classes; decision table and a decimal commensurate lattice emitted by TLC replayed on ConfigParser, Configuration.read and written tables for both grids",
+   text="ImplAgrees (transcription = statement) for every class of (nr, dr, cutoff); the replay runs each class and ~2.5k (quick) / ~70k (thorough) decimal (step, k) pairs typed as decimal strings through the real parser for both grids, and reads row count, spacing and last row back from LAMMPS, setfl and Excel tables.",
+   note="The unrepaired-code model (Python truthiness) is kept as Grid_code.cfg and must violate ImplAgrees (anti-vacuity). Two genuine defects repaired (F01, F19)."),
  "C17": dict(engine="layout", design="5 C17", technique="TLA+ fault model (Layout.tla: EvalFails at every evaluation k, flush discipline per writer) model-checked with TLC; every failing position replayed on the real writers through recording file objects, the potable CLI with a formula leaving its domain, and a second write() on the same object",
    text="TLC checks AllOrNothing / WholeOrNothing for every writer model and every failing evaluation k; the replay makes the k-th evaluation of the real write raise for every k of every model (API routes), makes a formula leave its domain at first/middle/last grid index of every function slot (Configuration and CLI routes, with a pre-existing output file), and requires an empty sink / empty-or-absent file, and that a later write() of the same object emits the whole table or nothing.",
    note="Fault = exception from a user function evaluation; I/O errors of the file system are out of scope. Three genuine defects found and repaired (known_findings.json F11a, F11b, F17)."),
@@ -51,8 +57,8 @@ def main():
         hooks=dict(guard="ATSIM_POTENTIALS_VERIF", enable="none needed: no source hooks are installed; checks import /repo's working tree directly (lib/boot.py)",
                    baseline_off_cmd="cd /repo && /venv/bin/python -m pytest -ra -q -p no:cacheprovider --timeout=900 --continue-on-collection-errors",
                    source_commits=[], add_only=True),
-        engines=[dict(name="layout", path="engines/layout.py", serves_properties=[p for p in props if CHECKS.get(p, {}).get("engine") == "layout"],
-                      kind_free_text="TLC on spec/Layout.tla (writer step machines x consumer models) + replay of every emitted case through the real code")],
+        engines=[dict(name=e, path="engines/%s.py" % e, serves_properties=[p for p in props if CHECKS.get(p, {}).get("engine") == e], kind_free_text=k)
+                 for e, k in ENGINES.items() if any(CHECKS.get(p, {}).get("engine") == e for p in props)],
         checks=checks,
         notes="Model-based verification with explicit TLA+ specifications under /verif/spec; see DESIGN.md.",
         not_applicable=na)
@@ -65,5 +71,10 @@ def main():
     print("MANIFEST.json written: %d checks, %d not_applicable" % (len(checks), len(na)))
 
 NA = {}
+ENGINES = {
+ "layout": "TLC on spec/Layout.tla (writer step machines x consumer models x fault model) + replay of every emitted case through the real code",
+ "multirange": "TLC on spec/MultiRange.tla + replay of every listing on the real multi-range classes",
+ "grid": "TLC on spec/Grid.tla + replay of the decision table and decimal lattice on the real parser and written tables",
+}
 if __name__ == "__main__":
     main()
